@@ -197,5 +197,39 @@ theorem C12_not_synthesised (E : Env) (v : Val) (s : PState) (h : s.errs ≠ [])
   have : s.errs.isEmpty = false := by cases hs : s.errs <;> simp_all
   simp [finish, this]
 
+/-! ### finding D30: under `Memoize(true)` the expected set loses terminals -/
+
+namespace WitnessC12
+
+def lit (id : Nat) (s : String) : Expr := .lit id (s.toList.map (·.toNat)) false ("\"" ++ s ++ "\"")
+
+/-- `S <- !X "q" / X "z"` ; `X <- "a"` -/
+def rulesD30 : List Rule :=
+  [ { name := "S", displayName := "", leader := false, leftRecursive := false,
+      expr := .choice 1 1 6 [.seq 2 [.not 3 (.ruleRef 4 "X"), lit 5 "q"], .seq 6 [.ruleRef 7 "X", lit 8 "z"]] },
+    { name := "X", displayName := "", leader := false, leftRecursive := false, expr := lit 9 "a" } ]
+
+def envD30 (memo : Bool) : Env :=
+  { flags := { optimize := false, globalState := false, leftRec := false, basicLatin := false },
+    opts := { memoize := memo }, rules := rulesD30,
+    code := { args := fun _ => [], run := fun _ ctx => { state := ctx.state, global := ctx.global } },
+    toLower := id, input := "b".toList.map (·.toNat) }
+
+def errsOf : Final → Option (List String)
+  | .ret _ errs _ => some errs
+  | _ => none
+
+/-- **Finding D30 on the model** (genuine defect of the unchanged tree, reproduced on the real parser): on input `b` both
+    `"a"` (the rule `X`, tried by the second alternative) and `"q"` fail at offset 0. The plain parser reports both. With
+    `Memoize(true)` the second evaluation of `X` at offset 0 is a memo hit - `X` was evaluated there inside the `!` of the
+    first alternative, where a FAILING terminal is not recorded - and a memo hit does not replay `failAt`: `"a"` is missing
+    from the expected set, although it is a terminal that failed at the reported offset outside any predicate. -/
+theorem C12_D30_memo_hit_drops_an_expected_terminal :
+    errsOf (parse (envD30 false) 40) = some ["1:1 (0): no match found, expected: \"a\" or \"q\""] ∧
+    errsOf (parse (envD30 true) 40) = some ["1:1 (0): no match found, expected: \"q\""] := by
+  decide
+
+end WitnessC12
+
 end RT
 end PV
